@@ -8,6 +8,11 @@ A kernel is described by a dict:
   hp_block(case, ha, hb) -> object ndarray (optional: the block routine replayed on HP shells, cases with "hp": 1;
   hp_seg(case) -> the two axes of the block that index the segments (default (0, 2)); hp_post / hp_floor: see
   hpnum.compare_hp)
+
+History streams (hidden state / "the value depends only on the arguments"): basis-level shells are built WITH the atom
+index (icenter); a basis-level case may carry case["hist"] = further geometries (per-shell centres): the same shells are
+then evaluated, in the same process, at every geometry in turn and at the first geometry again, each call against the
+exact model at that geometry (add_history, run_history, shrink_history; detail kind "history").
 """
 import itertools
 import os
@@ -29,6 +34,106 @@ def t_sx(T):
 
 def gen_transform(rng, nrows, ncols):
     return [[Fraction(rng.randint(-8, 8), 8) for _ in range(ncols)] for _ in range(nrows)]
+
+
+# ----------------------------------------------------------------------------------------------
+# history streams (geometry scans): sequences of calls inside ONE case, in ONE process
+# ----------------------------------------------------------------------------------------------
+def case_geometries(case):
+    """the geometries of a basis-level case: [first geometry] + case["hist"], each a list of per-shell centres"""
+    g0 = [[Fraction(x) for x in s["coord"]] for s in case["basis"]]
+    return [g0] + [[[Fraction(x) for x in c] for c in g] for g in (case.get("hist") or [])]
+
+
+def atom_ids(geoms):
+    """per-shell atom index: shells that share their centre in EVERY geometry of the sequence are one atom (numbered
+    in order of first appearance, as gbasis.parsers.make_contractions numbers the atoms of a molecule)"""
+    keys, ids = [], []
+    for i in range(len(geoms[0])):
+        k = tuple(tuple(g[i]) for g in geoms)
+        if k not in keys:
+            keys.append(k)
+        ids.append(keys.index(k))
+    return ids
+
+
+def add_history(rng, case, ngeo):
+    """Append a geometry scan to a basis-level case: `ngeo` further geometries in which the atoms (shells sharing a
+    centre move together) are displaced rigidly, atom by atom, by k/16 bohr per axis (one atom only, or every atom
+    by its own vector); exponents, coefficients, types and atom indices stay the same.  Every coordinate stays a
+    double (full-mantissa centres are rounded after the shift)."""
+    g0 = [[Fraction(x) for x in s["coord"]] for s in case["basis"]]
+    atoms = []
+    for c in g0:
+        if c not in atoms:
+            atoms.append(c)
+    hist = []
+    for _ in range(ngeo):
+        movers = list(range(len(atoms)))
+        if len(atoms) > 1 and rng.random() < 0.5:
+            movers = [rng.randrange(len(atoms))]
+        new = []
+        for ia, c in enumerate(atoms):
+            if ia not in movers:
+                new.append(list(c))
+                continue
+            d = [0, 0, 0]
+            while d == [0, 0, 0]:
+                d = [rng.randint(-24, 24) for _ in range(3)]
+            new.append([Fraction(float(x + Fraction(k, 16))) for x, k in zip(c, d)])
+        hist.append([[str(x) for x in new[atoms.index(c)]] for c in g0])
+    case["hist"] = hist
+    return case
+
+
+def cost_proxy(case):
+    """rough size of the exact model's work on a basis-level case: sum over shell pairs of Ka Kb Ma Mb (la+lb+1)^3"""
+    b = case["basis"]
+    return sum(len(x["exps"]) * len(y["exps"]) * len(x["coeffs"][0]) * len(y["coeffs"][0]) * (x["l"] + y["l"] + 1) ** 3
+               for i, x in enumerate(b) for y in b[i:])
+
+
+HISTORY_NOTE = ("sequence of calls in one process: the same shells (exponents, coefficients, types, atom indices "
+                "icenter) at the geometries of case['hist'] in turn, then the first geometry again; every call is "
+                "compared with the exact model AT ITS OWN geometry")
+
+
+def run_history(case, basis0, eval_at):
+    """The further calls of a history case.  eval_at(shells, ids, step, repeat) -> detail | None evaluates the
+    implementation on `shells` carrying the atom indices `ids` (repeat = the first geometry again: the model value of
+    the first call is reused).  Returns (detail of kind 'history' | None, stats)."""
+    hist = case.get("hist")
+    if not hist:
+        return None, {}
+    geoms = case_geometries(case)
+    ids = atom_ids(geoms)
+    ncalls = len(geoms) + 1
+    stats = {"history-sequences": 1, "history-calls": 0,
+             "history-sequences-with-2+-atoms": 1 if len(set(ids)) > 1 else 0}
+    for step, g in enumerate(geoms[1:] + [geoms[0]], start=1):
+        repeat = step == len(geoms)
+        shells = [s.moved(c) for s, c in zip(basis0, g)]
+        d = eval_at(shells, ids, step, repeat)
+        stats["history-calls"] += 1
+        if d is not None:
+            return {"kind": "history", "call": step + 1, "calls": ncalls,
+                    "what": ("the first geometry again, after %d other geometries" % (len(geoms) - 1)) if repeat
+                    else "geometry %d of the scan" % step,
+                    "geometry": [[str(x) for x in c] for c in g], "icenter": ids, "failure": d,
+                    "note": HISTORY_NOTE}, stats
+    return None, stats
+
+
+class _Memo:
+    """the model co-process with the answers of this case remembered (the exact model is a function of the command)"""
+
+    def __init__(self, model):
+        self.model, self.memo = model, {}
+
+    def call(self, cmd):
+        if cmd not in self.memo:
+            self.memo[cmd] = self.model.call(cmd)
+        return self.memo[cmd]
 
 
 def make_eval(kernel):
@@ -57,25 +162,63 @@ def make_eval(kernel):
             nontriv = bool(np.any(implr != 0)) and (sa.l + sb.l > 0 or len(sa.exps) > 1 or len(sb.exps) > 1)
             return {"detail": d, "nontrivial": nontriv, "tag": tag}
         if kind == "basis":
-            basis = [XShell.from_json(s) for s in case["basis"]]
+            model = _Memo(model)       # a tolerance rule may ask for the very command that is being compared
+            basis0 = [XShell.from_json(s) for s in case["basis"]]
             T = case.get("T")
             Tq = None if T is None else [[Fraction(x) for x in row] for row in T]
-            res = model.call(kernel["int_cmd"](case, basis, Tq))
             Tf = None if Tq is None else np.array([[float(x) for x in row] for row in Tq])
-            st, impl = call_impl(kernel["impl_int"], case, [s.to_gbasis() for s in basis], Tf)
-            types = "".join("s" if s.sph else "c" for s in basis)
-            tag = "%s basis n=%d %s%s" % (kernel["name"], len(basis), types, " T" if T is not None else "")
-            if st != "ok":
-                return {"detail": {"kind": "rejected", "impl": impl}, "tag": tag}
-            implr = kernel["post"](impl)
-            ta, tf = kernel["tol"](model, case, res, "basis", basis, Tq)
-            d = compare(implr, res, tol_abs=ta, tol_fn=tf)
-            if d is None and kernel.get("extra_check"):
-                d = kernel["extra_check"](case, impl, res, "basis")
-            return {"detail": d, "nontrivial": True, "tag": tag}
+            # basis-level shells carry the atom index (icenter), shells sharing a centre share it
+            ids = atom_ids(case_geometries(case))
+            types = "".join("s" if s.sph else "c" for s in basis0)
+            tag = "%s basis n=%d %s%s%s" % (kernel["name"], len(basis0), types, " T" if T is not None else "",
+                                            " hist" if case.get("hist") else "")
+            first = {}
+
+            def one(basis, step=0, repeat=False):
+                """one call of the public function on `basis`, compared with the model at that geometry"""
+                cse = case if step == 0 else dict(case, basis=[s.to_json() for s in basis], hist=None)
+                res = first["res"] if repeat else model.call(kernel["int_cmd"](cse, basis, Tq))
+                st, impl = call_impl(kernel["impl_int"], cse, [s.to_gbasis(icenter=a) for s, a in zip(basis, ids)], Tf)
+                if st != "ok":
+                    return {"kind": "rejected", "impl": impl}
+                implr = kernel["post"](impl)
+                ta, tf = first["tol"] if repeat else kernel["tol"](model, cse, res, "basis", basis, Tq)
+                if step == 0:
+                    first.update(res=res, tol=(ta, tf), implr=np.array(implr, copy=True))
+                d = compare(implr, res, tol_abs=ta, tol_fn=tf)
+                if d is None and kernel.get("extra_check"):
+                    d = kernel["extra_check"](cse, impl, res, "basis")
+                if repeat and d is None:
+                    first["bit-identical"] = bool(np.array_equal(np.asarray(implr), first["implr"]))
+                return d
+
+            d = one(basis0)
+            if d is not None:
+                return {"detail": d, "nontrivial": True, "tag": tag}
+            d, stats = run_history(case, basis0, lambda shells, _ids, step, repeat: one(shells, step, repeat))
+            if "bit-identical" in first:
+                stats["history-repeat-bit-identical"] = 1 if first["bit-identical"] else 0
+            return {"detail": d, "nontrivial": True, "tag": tag, "stats": stats}
         raise ValueError(kind)
 
     return eval_case
+
+
+def shrink_history(case):
+    """simpler history: one geometry of the scan less (a history case keeps >= 1 further geometry, i.e. >= 3 calls);
+    no scan at all - a candidate that only a failure of the FIRST call survives (candidates are evaluated in fresh
+    processes, lib.shrink_isolated)"""
+    hist = case.get("hist")
+    if not hist:
+        return
+    c = dict(case)
+    c["hist"] = None
+    yield c
+    if len(hist) > 1:
+        for i in range(len(hist)):
+            c = dict(case)
+            c["hist"] = hist[:i] + hist[i + 1:]
+            yield c
 
 
 def shrink_case(case):
@@ -87,6 +230,9 @@ def shrink_case(case):
                 c[key] = t
                 yield c
     else:
+        for c in shrink_history(case):
+            yield c
+        hist = case.get("hist") or None
         if case.get("T") is not None:
             c = dict(case)
             c["T"] = None
@@ -96,6 +242,8 @@ def shrink_case(case):
             for i in range(len(lst)):
                 c = dict(case)
                 c["basis"] = lst[:i] + lst[i + 1:]
+                if hist:
+                    c["hist"] = [g[:i] + g[i + 1:] for g in hist]
                 yield c
         if case.get("T") is None:
             for i, sj in enumerate(lst):
@@ -156,11 +304,18 @@ def hp_cases(tier, seed, salt, lmax_quick=2, lmax_thorough=4, n_quick=6, n_thoro
 
 
 def gen_cases(tier, seed, salt, lmax_block=5, lmax_basis=3, extra=None, nb_quick=40, nb_thorough=300,
-              block_reps_thorough=4, with_T=True, exp_hi=None, kcap_big=None, lmax_pairs=None):
+              block_reps_thorough=4, with_T=True, exp_hi=None, kcap_big=None, lmax_pairs=None, hist_every=None):
     """Every (la, lb) pair at block level (K 1-4, M 1-3; coincident / collinear / far-apart-compact geometries);
-    atom-structured bases of 1-4 shells with mixed types (and transforms)."""
+    atom-structured bases of 1-4 shells with mixed types (and transforms).  HISTORY: every `hist_every`-th generated
+    basis (default: every 2nd in quick, every 4th in thorough) and every 5th same-centre pair carries a geometry scan
+    (add_history; 1-2 further geometries + the first one again), drawn from a PRNG of its own so that the first calls
+    are the cases the check generated before the history streams existed."""
     from lib import gen_basis, gen_window_pair
     rng = random.Random(1000003 * seed + salt)
+    hrng = random.Random(1000003 * seed + salt + 7919)
+    if hist_every is None:
+        hist_every = 2 if tier == "quick" else 4
+    npair = 0
     cases = []
     # thorough tier: VERIF_THOROUGH_SCALE (default 3) multiplies the number of block repetitions and generated bases
     scale = max(1, int(os.environ.get("VERIF_THOROUGH_SCALE", "3") or 3))
@@ -220,6 +375,9 @@ def gen_cases(tier, seed, salt, lmax_block=5, lmax_basis=3, extra=None, nb_quick
             c = {"kind": "basis", "basis": [sa.to_json(), sb.to_json()], "T": None}
             if extra:
                 c.update(extra(rng, "basis", [sa, sb]))
+            npair += 1
+            if hist_every and npair % 5 == 0:
+                add_history(hrng, c, 1)
             cases.append(c)
     nb = nb_quick if tier == "quick" else nb_thorough * scale
     for i in range(nb):
@@ -236,5 +394,9 @@ def gen_cases(tier, seed, salt, lmax_block=5, lmax_basis=3, extra=None, nb_quick
             c["T"] = [[str(x) for x in row] for row in gen_transform(rng, nr, nf)]
         if extra:
             c.update(extra(rng, "basis", basis))
+        # all of n = 1..4; with a transform only n <= 2 and one further geometry (the exact model of a transformed
+        # 3-4 shell basis is the most expensive case of the quick tier: a scan of it would set the wall time)
+        if hist_every and (i // 4 + i) % hist_every == 1 and (c["T"] is None or n <= 2):
+            add_history(hrng, c, 1 if c["T"] is not None else 1 + (i // 3) % 2)
         cases.append(c)
     return cases
